@@ -7,6 +7,7 @@ import (
 	"go/token"
 	"go/types"
 	"os"
+	"runtime/pprof"
 	"sort"
 	"strconv"
 	"strings"
@@ -67,13 +68,14 @@ func main() {
 		timeout  = flag.Int("qtimeout", 60000, "per-query timeout ms")
 		noMerge  = flag.Bool("nomerge", false, "disable join-point merging")
 		trace    = flag.Bool("trace", false, "trace instructions")
-		z3bin    = flag.String("z3", "z3", "z3 binary")
+		z3bin    = flag.String("z3", "z3-new", "z3 binary")
 		preempt  = flag.Int("preempt", 0, "schedule forking (0: deterministic lowest-id)")
 		lockset  = flag.Bool("lockset", false, "lock discipline tracking")
 		concMax  = flag.Int("concmax", 64, "max values when concretizing")
 		wit      = flag.Int("witnesses", 3, "witness paths to extract")
 		kfs      = flag.String("known", "", "comma separated known-finding ids that are listed as known")
 		logDir   = flag.String("smtlog", "", "directory for smt logs")
+		noLazy   = flag.Bool("nolazy", false, "eager feasibility checks at every branch")
 		unwindV  = flag.Bool("unwindviol", false, "treat unwind bound excess as violation (loop-forever check)")
 		forceCVC = flag.Bool("cvc5", false, "send all queries to cvc5")
 		sets     kvList
@@ -132,6 +134,8 @@ func main() {
 		fnsExecuted: map[string]int{}, stubsHit: map[string]int{}, assumptions: map[string]int{}, kfSeen: map[string]bool{}}
 	e.cfg = Config{Unwind: *unwind, MaxSteps: *maxSteps, Merge: !*noMerge, MaxPaths: *maxPaths, Trace: *trace, Preempt: *preempt,
 		Lockset: *lockset, ConcMax: *concMax, Witnesses: *wit, KnownKF: map[string]bool{}, UnwindViol: *unwindV}
+	e.cfg.Lazy = !*noLazy
+	e.cfg.Debug = os.Getenv("GOSYM_DEBUG") != ""
 	for _, k := range strings.Split(*kfs, ",") {
 		if k != "" {
 			e.cfg.KnownKF[k] = true
@@ -147,7 +151,7 @@ func main() {
 
 	root := &State{id: newStateID(), heap: []*Object{nil}, facts: map[int]*Term{}, covers: map[string]bool{}, pools: map[addr][]Value{},
 		syncMaps: map[addr]int{}, lockOwner: map[addr]int{}, rlockCnt: map[addr]int{}, kf: map[string]*Term{}, ghost: map[string]Value{},
-		tickBudget: map[int]int{}, locksHeld: map[int][]addr{}, atomicCells: map[addr]bool{}, plainCells: map[addr]string{}, model: Model{}}
+		tickBudget: map[int]int{}, locksHeld: map[int][]addr{}, atomicCells: map[addr]bool{}, plainCells: map[addr]string{}, models: []Model{{}}}
 	// globals
 	for _, p := range prog.AllPackages() {
 		for _, m := range p.Members {
@@ -172,6 +176,21 @@ func main() {
 	root.threads = []*Thread{th}
 	root.cur = 0
 	e.initDone = true
+	if os.Getenv("GOSYM_DEBUG") != "" {
+		go func() {
+			for {
+				time.Sleep(10 * time.Second)
+				st := e.solver.Stats
+				fmt.Fprintf(os.Stderr, "[progress] paths=%d aborted=%d merges=%d forks=%d queries=%d z3=%.1fs max=%.1fs terms=%d wall=%.0fs\n",
+					e.pathsDone, e.pathsPanic, e.merges, e.forks, st.Queries, st.WallZ3.Seconds(), st.MaxQuery.Seconds(), len(TF.all), time.Since(t0).Seconds())
+			}
+		}()
+	}
+	if pf := os.Getenv("GOSYM_PROF"); pf != "" {
+		fh, _ := os.Create(pf)
+		pprof.StartCPUProfile(fh)
+		go func() { time.Sleep(60 * time.Second); pprof.StopCPUProfile(); fh.Close() }()
+	}
 	rest := e.run(root, nil, 0)
 	_ = rest
 
@@ -199,6 +218,11 @@ func main() {
 	sort.Strings(out.KFSeen)
 	if e.solver.Stats.Errors > 0 {
 		out.Inconclusive = append(out.Inconclusive, fmt.Sprintf("solver reported %d error lines", e.solver.Stats.Errors))
+	}
+	if os.Getenv("GOSYM_DEBUG") != "" {
+		fmt.Fprintln(os.Stderr, "merge failures by site:", mergeFailCounts)
+		fmt.Fprintln(os.Stderr, "fork sites:", forkSites)
+		fmt.Fprintln(os.Stderr, "nomerge (arms):", noMergeArms)
 	}
 	b, _ := json.MarshalIndent(out, "", " ")
 	if *outF != "" {
